@@ -7,51 +7,16 @@ What is proved (for all inputs):
     is exactly the condition under which no assertion fires), `reglue_complete`, `reglue_empty`
   ○ `collapse_complete_partial` (every D-set `collapse` returns is complete and involutive;
     termination of the inner `while` is open: `collapse_complete_statement`),
-    `cut_face_commutes`; `cut_tile_commutes_statement` is open.
+    `cut_face_commutes`, `cut_tile_commutes`.
   ◐ everything global (sphericity of tiles and vertex figures preserved, homeomorphism type,
     census of the result) is Spec-only: evaluated by Spec/C16.lean on the outputs of the real code.
 -/
 import DSymVerif.Proofs.Simplify
 import DSymVerif.Proofs.SimplifyCut
+import DSymVerif.Proofs.SimplifyTile
 
 namespace DSymVerif.C16
 open DSymVerif DSymVerif.DS DSymVerif.Simp
-
-/-! ### witnesses for the non-vacuity examples -/
-
-/-- Boolean form of `ValidSet` -/
-def validSetB (s : DSetData) : Bool :=
-  s.op.size == s.size * (s.dim + 1) &&
-  (List.range (s.dim + 1)).all fun i => (List.range s.size).all fun d0 =>
-    1 ≤ s.opU i (d0 + 1) && s.opU i (d0 + 1) ≤ s.size && s.opU i (s.opU i (d0 + 1)) == d0 + 1
-
-theorem validSetB_sound {s : DSetData} (h : validSetB s = true) : ValidSet s := by
-  unfold validSetB at h
-  simp only [Bool.and_eq_true, beq_iff_eq, List.all_eq_true, List.mem_range, decide_eq_true_eq] at h
-  obtain ⟨h1, h2⟩ := h
-  refine ⟨h1, ?_, ?_⟩
-  · intro i d hi hd1 hd2
-    have := h2 i (by omega) (d - 1) (by omega)
-    rw [show d - 1 + 1 = d by omega] at this
-    exact ⟨this.1.1, this.1.2⟩
-  · intro i d hi hd1 hd2
-    have := h2 i (by omega) (d - 1) (by omega)
-    rw [show d - 1 + 1 = d by omega] at this
-    exact this.2
-
-/-- eight chambers (a, b, c) ∈ {0,1}³ numbered 1 + a + 2b + 4c; s0 = s2 flip a, s1 flips b,
-    s3 flips c -/
-def ex8 : DSetData :=
-  { size := 8, dim := 3,
-    op := #[2, 3, 2, 5,  1, 4, 1, 6,  4, 1, 4, 7,  3, 2, 3, 8,  6, 7, 6, 1,  5, 8, 5, 2,  8, 5, 8, 3,  7, 6, 7, 4] }
-
-theorem ex8_valid : ValidSet ex8 := validSetB_sound (by decide)
-
-theorem isOk_exists {α} {x : Outcome α} (h : x.isOk = true) : ∃ a, x = .ok a := by
-  cases x with
-  | ok a => exact ⟨a, rfl⟩
-  | err => cases h
-  | panic => cases h
 
 /-! ### grow -/
 
@@ -133,14 +98,19 @@ theorem reglue_empty (ds : DSetData) (index : Nat) : reglue ds [] index = .ok no
 /-! ### collapse -/
 
 /-- ○ `collapse_complete`, full statement (open): if the removed set is a proper non-empty set of
-    chambers that is closed under all operations but the connector, `collapse` returns a D-set.
-    Missing: termination of the inner `while src2img[e] == 0` loop within `size + 1` rounds (the
-    walk alternates connector and `i` inside one finite (connector, i)-orbit that contains a kept
-    chamber) and that the resulting closure is an involution. -/
+    chambers that is closed under the *connector* (this is what every caller passes: unions of
+    (2,3)-orbits with connector 2, of 3-edges or of (0,1,3)-orbits with connector 3), `collapse`
+    returns a complete involutive D-set.  (DESIGN §6 says "closed under all operations but the
+    connector"; with that hypothesis the inner loop never runs at all and a removed connector
+    neighbour of a kept chamber makes `build_set` assert, so the hypothesis that matters is
+    closure under the connector: then the walk e ↦ s_i s_c e started at s_i(src) reaches the kept
+    chamber s_c(src) after at most one turn around the (i, c)-orbit.)
+    Missing: that pigeonhole argument for the `while src2img[e] == 0` loop (fuel `size + 1`), the
+    mutual inverseness of `src2img` / `img2src`, and symmetry of the resulting closure. -/
 def collapse_complete_statement : Prop :=
   ∀ (ds : DSetData) (remove : List Nat) (connector : Nat), ValidSet ds → connector ≤ ds.dim →
     (∀ d ∈ remove, 1 ≤ d ∧ d ≤ ds.size) → remove ≠ [] → distinctCount ds.size remove < ds.size →
-    (∀ d ∈ remove, ∀ i, i ≤ ds.dim → i ≠ connector → ds.opU i d ∈ remove) →
+    (∀ d ∈ remove, ds.opU connector d ∈ remove) →
     ∃ s, collapse (.dset ds) remove connector = .ok (some (.dset s)) ∧ ValidSet s
 
 /-- ○ **`collapse_complete_partial`.**  Whatever the arguments: every D-set the model of
@@ -179,18 +149,26 @@ theorem cut_face_commutes {ds s : DSetData} (hv : ValidSet ds) (hdim : ds.dim = 
 /-- `cut_face(ex8, 1, 2)` returns: the eight old chambers 1, 2, 6, 5, 3, 4, 8, 7 are distinct -/
 example : ∃ s, cutFace ex8 1 2 = .ok s := isOk_exists (by decide +kernel)
 
-/-- ○ `cut_tile_commutes`, statement (open): the 2m new chambers of an accepted `cut_tile` satisfy
-    s0s3 = s3s0 and s1s3 = s3s1, and s0s2 = s2s0 when the cut chambers come in 0-adjacent pairs
-    and s0, s2 commute on the old set.  Missing: evaluation of `pairedGet` on the four generated
-    pair lists for symbolic m. -/
-def cut_tile_commutes_statement : Prop :=
-  ∀ (ds s : DSetData) (cut : List Nat), ValidSet ds → ds.dim = 3 →
-    (∀ d ∈ cut, 1 ≤ d ∧ d ≤ ds.size) → cutTile ds cut = .ok s →
-    (∀ k, 2 * k + 1 < cut.length → ds.opU 0 (cut.getD (2 * k) 0) = cut.getD (2 * k + 1) 0) →
-    (∀ d, 1 ≤ d → d ≤ ds.size → ds.opU 2 (ds.opU 0 d) = ds.opU 0 (ds.opU 2 d)) →
-    ValidSet s ∧ s.size = ds.size + 2 * cut.length ∧
-    ∀ c, ds.size < c → c ≤ ds.size + 2 * cut.length →
-      s.opU 2 (s.opU 0 c) = s.opU 0 (s.opU 2 c) ∧ s.opU 3 (s.opU 0 c) = s.opU 0 (s.opU 3 c) ∧
-      s.opU 3 (s.opU 1 c) = s.opU 1 (s.opU 3 c)
+/-- ○ **`cut_tile_commutes`.**  If `cut_tile(ds, cut_chambers)` returns on a complete
+    3-dimensional D-set with chamber arguments, the result is complete with involutive operations,
+    has 2m more chambers, keeps operations 0, 1 and 3 of every old chamber, and every new chamber
+    satisfies s0s3 = s3s0 and s1s3 = s3s1 by construction; if moreover the cut chambers come in
+    0-adjacent pairs (`s0 cut[k] = cut[k xor 1]`, as `split_and_glue_attempt` builds them) on which
+    s0 and s2 commute in the old D-set, the new chambers also satisfy s0s2 = s2s0. -/
+theorem cut_tile_commutes {ds s : DSetData} (hv : ValidSet ds) (hdim : ds.dim = 3) {cut : List Nat}
+    (hcut : ∀ k, k < cut.length → 1 ≤ cut.getD k 0 ∧ cut.getD k 0 ≤ ds.size)
+    (h : cutTile ds cut = .ok s) :
+    ValidSet s ∧ s.size = ds.size + 2 * cut.length ∧ s.dim = 3 ∧
+    (∀ i d, i ≤ 3 → i ≠ 2 → 1 ≤ d → d ≤ ds.size → s.opU i d = ds.opU i d) ∧
+    (∀ c, ds.size < c → c ≤ ds.size + 2 * cut.length →
+      s.opU 3 (s.opU 0 c) = s.opU 0 (s.opU 3 c) ∧ s.opU 3 (s.opU 1 c) = s.opU 1 (s.opU 3 c)) ∧
+    ((∀ k, k < cut.length → ds.opU 0 (cut.getD k 0) = cut.getD (if k % 2 = 0 then k + 1 else k - 1) 0) →
+     (∀ k, k < cut.length → ds.opU 2 (ds.opU 0 (cut.getD k 0)) = ds.opU 0 (ds.opU 2 (cut.getD k 0))) →
+     ∀ c, ds.size < c → c ≤ ds.size + 2 * cut.length → s.opU 2 (s.opU 0 c) = s.opU 0 (s.opU 2 c)) :=
+  cutTile_commutes hv hdim hcut h
+
+/-- `cut_tile(ex8, [1, 2])` returns (opposites 4, 3), and 1, 2 are 0-adjacent -/
+example : (∃ s, cutTile ex8 [1, 2] = .ok s) ∧ ex8.opU 0 1 = 2 ∧ ex8.opU 0 2 = 1 :=
+  ⟨isOk_exists (by decide +kernel), by decide, by decide⟩
 
 end DSymVerif.C16
